@@ -3,7 +3,7 @@
    `run` = whole manifest). *)
 From Coq Require Import List ZArith NArith Bool.
 Import ListNotations.
-Require Import RV.Model.C10_ProofLock RV.Model.C09_Worktop RV.Proof.C09_Worktop.
+Require Import RV.Model.C10_ProofLock RV.Model.C09_Worktop RV.Proof.C09_Worktop RV.Proof.C09_Conservation.
 Open Scope N_scope.
 
 (* Taking an amount from the worktop succeeds only if the worktop's bucket of that resource holds
@@ -65,6 +65,21 @@ Theorem C09_consumed_proof_fails : forall s p, afind p (pnamed s) = None ->
   /\ step s (OPushAuthZone p) = Err EProofNotFound.
 Proof. exact consumed_proof_fails. Qed.
 
+(* Conservation (fungible resources): `hold s r` = account vault of r + every bucket node of r
+   (liquid + locked) + burned tally of r.  Every instruction that succeeds, and the end of the
+   transaction, leave it unchanged: nothing vanishes, nothing is duplicated.  For a transaction
+   that succeeds, all bucket nodes are gone, so vault + burned at the end = everything at the start. *)
+Theorem C09_step_conserves : forall s o s' r, step s o = Ok s' -> (hold s' r = hold s r)%Z.
+Proof. exact step_conserves. Qed.
+Theorem C09_conservation : forall s ops s' r, run s ops = Done s' ->
+  (hold s' r = hold s r)%Z /\
+  (vsum r (vaults s') + fsum r (burnedf s') = vsum r (vaults s) + bsum r (buckets s) + fsum r (burnedf s))%Z.
+Proof.
+  intros s ops s' r H. pose proof (run_conserves _ _ _ _ r H) as Hc. split; [exact Hc|].
+  destruct (run_from_done _ _ _ _ H) as (Hb & _). unfold hold in Hc. rewrite Hb in Hc. cbn [bsum] in Hc.
+  rewrite <- Hc. ring.
+Qed.
+
 Example C09_nonvacuous :
   let s0 := init 1000 500 [1; 2; 3] in
   (exists s', run s0 [OWithdraw 0 10; OTakeFromWorktop 0 10; OReturnToWorktop 0; OTakeFromWorktop 0 4;
@@ -75,6 +90,8 @@ Example C09_nonvacuous :
   /\ run s0 [OWithdraw 0 10; OTakeFromWorktop 0 10; ODeposit 0; ODeposit 0] = Failed 3 EBucketNotFound.
 Proof. repeat split; try (eexists; vm_compute; reflexivity); vm_compute; reflexivity. Qed.
 
+Print Assumptions C09_step_conserves.
+Print Assumptions C09_conservation.
 Print Assumptions C09_take_bounded.
 Print Assumptions C09_take_split_exact.
 Print Assumptions C09_take_ids_bounded.
